@@ -1,3 +1,7 @@
 Require Extraction. Require Import ExtrOcamlBasic.
-From GV Require Import WrapperModel.
-Extraction "wrapper_model.ml" WrapperModel.run_case.
+From Coq Require Import List ZArith.
+From GV Require Import Sched Enum WrapperModel.
+Definition enum_case (cfg : list Z) (progs : list (list (list Z))) (depth budget : Z) :=
+  let cf := decode_cfg cfg in
+  enum_case_gen glob loc (tstep cf) (init cf (map decode_prog progs)) depth budget.
+Extraction "wrapper_model.ml" WrapperModel.run_case enum_case.
